@@ -818,15 +818,47 @@ class TrigTime:
                     next_time_adj = now + delta
 
             elif len(match1) == 3:
-                this_t, _ = await cls.parse_date_time(match1[1].strip(), 0, now, startup_time)
-                day_offset = (now - this_t).days + 1
-                if day_offset != 0 and this_t != startup_time:
+                once_spec = match1[1].strip()
+                try:
+                    this_t, _ = await cls.parse_date_time(once_spec, 0, now, startup_time)
+                except ValueError:
+                    # eg, 2/29 in a year that has none
+                    this_t = None
+                if this_t is not None:
+                    day_offset = (now - this_t).days + 1
+                    if day_offset != 0 and this_t != startup_time:
+                        #
+                        # Try a day offset (won't make a difference if spec has full date)
+                        #
+                        this_t, _ = await cls.parse_date_time(once_spec, day_offset, now, startup_time)
+                startup = this_t is not None and now == this_t and now == startup_time
+                if this_t is None or not (now < this_t or startup):
                     #
-                    # Try a day offset (won't make a difference if spec has full date)
+                    # a day of week, or a month/day without year, that has passed comes again
+                    # next week, or in a following year
                     #
-                    this_t, _ = await cls.parse_date_time(match1[1].strip(), day_offset, now, startup_time)
-                startup = now == this_t and now == startup_time
-                if (now < this_t or startup) and (next_time is None or this_t < next_time):
+                    this_t = None
+                    date_match = re.match(r"0*(\d+)[-/]0*(\d+)(?:[-/]0*(\d+))?", once_spec)
+                    word_match = re.match(r"(\w+)", once_spec.lower())
+                    if date_match and not date_match[3]:
+                        refs = [dt.datetime(now.year + add_years, 1, 1) for add_years in range(1, 9)]
+                    elif not date_match and word_match and word_match[1] in cls.dow2int:
+                        refs = [now + dt.timedelta(days=7)]
+                    else:
+                        refs = []
+                    for ref in refs:
+                        try:
+                            next_t, _ = await cls.parse_date_time(once_spec, 0, ref, startup_time)
+                        except ValueError:
+                            continue
+                        if now < next_t:
+                            this_t = next_t
+                            break
+                if (
+                    this_t is not None
+                    and (now < this_t or startup)
+                    and (next_time is None or this_t < next_time)
+                ):
                     next_time_adj = next_time = this_t
 
             elif len(match2) == 5:
